@@ -28,6 +28,7 @@ Ltac np :=
       exact (proj1 H c (index_of_citem_In _ _ _ E))
     | H : GoodM ?P ?x |- ~ ?P (m_root ?x) => exact (proj1 H)
     | H : OutO ?P (Some ?c) |- ~ ?P ?c => exact (H c eq_refl)
+    | H : forall a, Some ?c = Some a -> ~ ?P a |- ~ ?P ?c => exact (H c eq_refl)
     | H : forall a, Some (Some ?c) = Some a -> OutO ?P a |- ~ ?P ?c => exact (H _ eq_refl c eq_refl)
     | H : OutC ?P (CElem ?c :: _) |- ~ ?P ?c => apply H; left; reflexivity
     | H : OutI ?P (?c :: _) |- ~ ?P ?c => apply H; left; reflexivity
@@ -157,6 +158,10 @@ Ltac irp_step :=
     first [ apply irpq_get_model; [assumption | intros ? ?] | apply irpq_get_model_any; intros ? ]
   | |- irpq _ _ _ (wbind wget _) => apply irpq_wget; intros ?
   | |- irpq _ _ _ (wbind (alloc _) _) => eapply irpq_bind; [apply irpq_alloc; good | cbv beta; intros ? ?]
+  | |- irpq _ _ _ (wbind (wtry _) _) =>
+    first [ eapply irpq_bind; [ solve [eauto with irp nocore] | cbv beta; intros ? ? ]
+          | eapply irpq_bind; [ eapply irpq_try; solve [eauto with irp nocore] | cbv beta; intros ? ? ]
+          | eapply (irpq_bind _ _ (fun _ => True)); [ | intros ? _ ] ]
   | |- irpq ?P _ _ (wbind (?F ?l) _) =>
     first [ (is_fix F; eapply (irpq_bind _ _ (OutI P)); [ | intros ? ? ])
           | eapply irpq_bind; [ solve [eauto with irp nocore] | cbv beta; intros ? ? ]
@@ -312,5 +317,21 @@ Lemma irp_e_set_comment h c : ~ P h -> irp (e_set_comment h c).
 Proof. intros Hh. unfold e_set_comment. irp_tac. Qed.
 Lemma irp_e_set_reference_target h target : ~ P h -> irp (e_set_reference_target T tab_el tab_en check_fn LATEST h target).
 Proof. intros Hh. unfold e_set_reference_target. irp_tac. Qed.
+
+(* ---------- copy ---------- *)
+Lemma irpq_deep_copy fuel : forall src version, irpq NPq (deep_copy T fuel src version).
+Proof. induction fuel as [|f IH]; intros src version; cbn [deep_copy]; irp_tac. Qed.
+Hint Resolve irpq_deep_copy : irp.
+Lemma irp_register_subtree fuel : forall m cur i, m <> b -> ~ P i -> irp (register_subtree T fuel m cur i).
+Proof. induction fuel as [|f IH]; intros m cur i Hm Hi; cbn [register_subtree]; irp_tac. Qed.
+Hint Resolve irp_register_subtree : irp.
+Lemma irpq_ccsei self other pos m version :
+  ~ P self -> m <> b -> irpq NPq (create_copied_sub_element_inner T self other pos m version).
+Proof. intros Hs Hm. unfold create_copied_sub_element_inner. irp_tac. Qed.
+Hint Resolve irpq_ccsei : irp.
+Lemma irpq_e_copy h other : ~ P h -> irpq NPq (e_create_copied_sub_element T LATEST h other).
+Proof. intros Hh. unfold e_create_copied_sub_element, raw_create_copied_sub_element. irp_tac. Qed.
+Lemma irpq_e_copy_at h other pos : ~ P h -> irpq NPq (e_create_copied_sub_element_at T LATEST h other pos).
+Proof. intros Hh. unfold e_create_copied_sub_element_at, raw_create_copied_sub_element_at. irp_tac. Qed.
 
 End Ops.
